@@ -1,6 +1,7 @@
 package main
 
 import (
+	"os"
 	"fmt"
 	"go/constant"
 	"go/token"
@@ -349,6 +350,16 @@ func (x *Exec) step(st *State, fr *Frame, ins ssa.Instruction) {
 		}
 		a := x.ptrAddr(st, fr, v.Addr, v.Pos())
 		st.store(a, x.term(st, v.Val))
+		if key, heap, ok := st.cellKey(a); ok {
+			if val := x.val(st, v.Val); val.boxed != nil {
+				if st.boxAt == nil {
+					st.boxAt = map[string]boxRec{}
+				}
+				st.boxAt[key] = boxRec{b: val.boxed, heap: heap}
+			} else if st.boxAt != nil {
+				delete(st.boxAt, key)
+			}
+		}
 		if val := x.val(st, v.Val); val.fn != nil {
 			st.closures[x.term(st, v.Val).S] = val.fn
 		}
@@ -427,6 +438,10 @@ func (x *Exec) step(st *State, fr *Frame, ins ssa.Instruction) {
 		bx.T = x.materialize(st, xv)
 		bx.typ = v.X.Type()
 		st.vals[v] = Val{T: t, typ: v.Type(), fn: xv.fn, boxed: &bx}
+		if st.boxes == nil {
+			st.boxes = map[string]*Val{}
+		}
+		st.boxes[t.S] = &bx
 	case *ssa.MakeClosure:
 		fn := v.Fn.(*ssa.Function)
 		fv := &FnVal{fn: fn}
@@ -550,6 +565,15 @@ func (x *Exec) doUnOp(st *State, fr *Frame, v *ssa.UnOp) {
 		}
 		t := st.load(a)
 		res := Val{T: t, typ: v.Type(), prot: val.prot}
+		if key, heap, ok := st.cellKey(a); ok {
+			if rec, ok := st.boxAt[key]; ok && rec.heap == heap {
+				res.boxed = rec.b
+			} else if os.Getenv("VERIF_DEBUG_BOX") != "" && strings.Contains(key, "helperShim") {
+				fmt.Fprintf(os.Stderr, "load key=%s found=%v heapEq=%v\n", key, ok, rec.heap == heap)
+			}
+		} else if os.Getenv("VERIF_DEBUG_BOX") != "" && a != nil && strings.Contains(typeStr(v.Type()), "helperShim") {
+			fmt.Fprintf(os.Stderr, "load nokey kind=%d path=%d\n", a.kind, len(a.path))
+		}
 		if tf := typingFact(v.Type(), t); tf.S != "true" && (a.kind != aLocal) {
 			t = st.name(v.Name(), t)
 			res.T = t
